@@ -257,7 +257,11 @@ func ruleSubmatchContext(c *Ctx) {
 		name := p.fname(fn)
 		eachInstr(fn, func(i ssa.Instruction) {
 			call, ok := i.(*ssa.Call)
-			if !ok || calleeName(&call.Call) != "(*regexp.Regexp).FindStringSubmatch" {
+			cnm := ""
+			if ok {
+				cnm = calleeName(&call.Call)
+			}
+			if !ok || (cnm != "(*regexp.Regexp).FindStringSubmatch" && cnm != "(*regexp.Regexp).FindStringSubmatchIndex") {
 				return
 			}
 			u, ok := strip(call.Call.Args[0]).(*ssa.UnOp)
@@ -274,22 +278,49 @@ func ruleSubmatchContext(c *Ctx) {
 			}
 			lits := literalBeforeGroups(pat)
 			searched := strip(call.Call.Args[1])
-			// uses of group k >= 1
+			// the text of group k >= 1: element k of the match, or searched[idx[2k]:idx[2k+1]] of the index form
+			type groupText struct {
+				v ssa.Value
+				k int64
+			}
+			var groups []groupText
 			for _, r := range referrers(call) {
 				ia, ok := r.(*ssa.IndexAddr)
 				if !ok {
 					continue
 				}
 				k, isC := constInt(ia.Index)
-				if !isC || k < 1 || lits[int(k)] == "" {
+				if !isC {
 					continue
 				}
-				lit := lits[int(k)]
 				for _, r2 := range referrers(ia) {
 					ld, ok := r2.(*ssa.UnOp)
 					if !ok || ld.Op != token.MUL {
 						continue
 					}
+					if cnm == "(*regexp.Regexp).FindStringSubmatch" {
+						groups = append(groups, groupText{ld, k})
+						continue
+					}
+					// index form: a slice expression whose low bound is idx[2k]
+					if k%2 != 0 {
+						continue
+					}
+					for _, r3 := range referrers(ld) {
+						if sl, ok := r3.(*ssa.Slice); ok && sl.Low == ssa.Value(ld) && isStringType(sl.Type()) {
+							groups = append(groups, groupText{sl, k / 2})
+						}
+					}
+				}
+			}
+			for _, gt := range groups {
+				k := gt.k
+				if k < 1 || lits[int(k)] == "" {
+					continue
+				}
+				lit := lits[int(k)]
+				{
+					ld := gt.v
 					// where the group text goes
 					for _, use := range referrers(ld) {
 						switch x := use.(type) {
